@@ -36,7 +36,7 @@ def md_representable(wb):
             for v in row:
                 if v is None:
                     continue
-                if not isinstance(v, str) or v != v.strip() or "\n" in v or "\\" in v or v == "" or "#" in v:
+                if not isinstance(v, str) or v != v.strip() or "\n" in v or "\\" in v or v == "":
                     return False
         if any(not r for r in wb[s]):
             return False
